@@ -38,6 +38,7 @@ def gen_world(rng, tier):
         "class_arrays": rng.random() < 0.4,
         "defaults": False,
         "fieldless": rng.random() < 0.7,
+        "short_names": rng.random() < 0.25,
         "max_types": rng.choice([3, 5, 8, 12]),
         "min_types": 2,
         "max_depth": rng.choice([2, 3, 4, 6]),
@@ -102,8 +103,37 @@ def gen_world(rng, tier):
                 schema.append({"k": "struct", "name": schema[t1]["name"], "fields": list(schema[t1]["fields"]) + [["tw", extra]], "decl": "class", "twin_of": t1})
                 twins.append(len(schema) - 1)
     hybrid = [s for s in structs if rng.random() < 0.25 and not schema[s].get("base")]
+    # declared dependency lists of hybrid classes as users write them (`Parent._depends_on + [...]`):
+    # several entries, some redundant (repeated, or already the type of a field), hybrid and plain
+    # classes mixed, in any order
+    dep_order = {}
+    tw = set(twins)
+    for s in hybrid:
+        if tw or rng.random() < 0.5:
+            continue  # (with a same-named twin in the world an added edge could close a cycle through it)
+        twinned = {schema[t]["twin_of"] for t in tw}  # (an edge to a class that a same-named twin overrides could close a cycle through the twin)
+        below = [c for c in comp if c < s and c not in tw and c not in twinned and schema[c]["k"] in ("struct", "array", "uref")]
+        if not below:
+            continue
+        lst = [d for a, d in depends if a == s and d < s]
+        ftypes = [f[1] for f in schema[s]["fields"] if f[1] in below]
+        hyb_below = [c for c in below if c in hybrid]
+        for _ in range(rng.choice([1, 2, 3])):
+            r = rng.random()
+            if r < 0.35 and (ftypes or lst):
+                lst.append(rng.choice(ftypes + lst))  # redundant
+            elif r < 0.7 and hyb_below:
+                lst.append(rng.choice(hyb_below))
+            else:
+                lst.append(rng.choice(below))
+        if rng.random() < 0.5:
+            rng.shuffle(lst)
+        dep_order[str(s)] = lst
+        for d in lst:
+            if [s, d] not in depends:
+                depends.append([s, d])
     nops = rng.choice([1, 2, 3, 4]) if tier == "quick" else rng.choice([2, 4, 6])
-    return {"schema": schema, "depends": depends, "hybrid": hybrid, "twins": twins, "switches": sw, "omp": rng.choice([0, 0, 0, 2]), "nops": nops}
+    return {"schema": schema, "depends": depends, "dep_order": dep_order, "hybrid": hybrid, "twins": twins, "switches": sw, "omp": rng.choice([0, 0, 0, 2]), "nops": nops}
 
 
 def gen_op(rng, spec):
@@ -141,6 +171,8 @@ def build_classes(spec):
             # forward declared dependencies go through the metaclass (which rewrites
             # hybrid classes to their _XoStruct)
             fwd = [d for s, d in depends if s == i and d < i]
+            if str(i) in spec.get("dep_order", {}):
+                fwd = list(spec["dep_order"][str(i)])
             decl = {"_cname": ty["name"], "_xofields": data}
             if fwd:
                 decl["_depends_on"] = [hyb.get(d, out[d]) for d in fwd]
